@@ -39,7 +39,10 @@ class BoolOperation(object):
             if self.done:
                 return
 
-            del self.fs[f]
+            if self.fs.pop(f, None) is None:
+                # Already seen: the same future was given more than once
+                # (and so are we called more than once for it)
+                return
 
             try:
                 (set_result, set_exception, cancel_futures) = self.get_state_update(f)
@@ -136,8 +139,9 @@ class AndOperation(BoolOperation):
             self.done = True
             set_exception = True
             cancel_futures = list(self.fs.keys())
-        elif (not f.result()) or (not self.fs):
-            # Falsey result or last result => we're done
+        elif (not self.fs) or (not f.result()):
+            # Last result (taken as it is, like the last operand of "and")
+            # or falsey result => we're done
             self.done = True
             cancel_futures = list(self.fs.keys())
             set_result = True
